@@ -100,6 +100,7 @@ def _java_cmd(accel, xmx="3g", extra_props=(), gcthreads=2):
         if not os.path.isdir(OVR):
             raise Infra("accelerator classes missing: run bin/setup.sh")
         cp.append(OVR)
+        extra_props = list(extra_props) + ["-Dtlc2.overrides.TLCOverrides=tlc2.overrides.TLCOverrides:VerifOverrides"]
     return (["java", "-XX:+UseParallelGC", "-XX:ParallelGCThreads=%d" % gcthreads, "-Xss512m", "-Xmx" + xmx] + list(extra_props) +
             ["-cp", ":".join(cp), "tlc2.TLC"])
 
